@@ -378,6 +378,20 @@ func (s *fontSpec) labels(e *expanded) []string {
 		default:
 			add("fds=255-256")
 		}
+		nr := 0
+		for i, fd := range e.fdsel {
+			if i == 0 || fd != e.fdsel[i-1] {
+				nr++
+			}
+		}
+		switch {
+		case nr >= 256 && 3*nr+5 < s.N+1:
+			add("fd-ranges>=256-and-range-format-shorter")
+		case nr >= 256:
+			add("fd-ranges>=256")
+		case nr >= 2:
+			add("fd-ranges=2-255")
+		}
 	} else {
 		add("name-keyed")
 	}
